@@ -159,12 +159,19 @@ def c15_custom(pid, tier, plan, scr, hbin, specdir):
     rng = random.Random(sd)
     cov = dict(states=0, transitions=0, traces_validated_against_impl=0, samples=[], mc_runs=[], recordings=[],
                steps_validated=0, notes=[], findings_other_properties=0, export_import_round_trips=0)
-    for mc in ((FEE_MC[tier] if tier == "thorough" else []) + REG_MC[tier] + STR_MC[tier]):
+    recs = []
+    for mc in (FEE_MC[tier] + ENT_MC[tier] + REG_MC[tier] + STR_MC[tier]):
         r = vlib.mc_exhaustive(specdir, mc["module"], mc["cfg"], scr, workers=16, timeout=mc.get("timeout", 900))
         cov["mc_runs"].append(r)
         cov["states"] += r["distinct"]
         cov["transitions"] += r["generated"]
-    recs = []
+        # every coverage-goal behaviour of the model with an export + re-import right after the goal's block
+        behs, used = vlib.goal_schedules(vlib.mc_exhaustive.goals, mc["module"], 1 if tier == "quick" else 4)
+        xb = vlib.goal_export_variants(behs, vlib.goal_schedules.glens, 1 if tier == "quick" else 2)
+        if xb:
+            rec, _ = vlib.record_behaviours(hbin, xb, scr, name="goalx-" + mc["cfg"].replace(".cfg", ""))
+            recs.append((rec, "tlc-coverage-goals x export/import:" + mc["cfg"], len(xb)))
+            cov["export_import_round_trips"] += len(xb)
     nsim, cap = (8, 4) if tier == "quick" else (60, 12)
     for mod, cfg in (("MC_Fee.tla", "MC_Fee_sim.cfg"), ("MC_Reg.tla", "MC_Reg_sim.cfg"), ("MC_Str.tla", "MC_Str_sim.cfg")):
         behs = vlib.sim_schedules(specdir, mod, cfg, scr, nsim, 160, sd, procs=4)
@@ -436,11 +443,11 @@ PLANS = {
     "C03": dict(mc=both(ENT_MC, ENT_GHOST), sim=ENT_SIM, random=rnd("ent", (300, 3), (2000, 20)),
                 rule="TLC exhaustive on MC_Ent (all interleavings of raise/decide/whitelist/gov param change/time advance in small scope); behaviours = TLC-simulated schedules + seeded random histories executed on the real app; non-trivial = a recorded step (one ABCI call) validated against Chain!Step and all C03 monitors",
                 assumptions=COMMON_ASSUME),
-    "C04": dict(mc=both(FEE_MC, ENT_MC), sim=both(FEE_SIM, ENT_SIM), sweep=FEE_SWEEP, random=rnd("ent", (300, 3), (2000, 20)),
+    "C04": dict(ledger=True, mc=both(FEE_MC, ENT_MC), sim=both(FEE_SIM, ENT_SIM), sweep=FEE_SWEEP, random=rnd("ent", (300, 3), (2000, 20)),
                 rule="TLC exhaustive on MC_Fee (orders completing, then fee-paying registry txs with every relation of locked/liquid to the fee, exact/higher/missing/multi-denomination fees, bad signatures, k-th message failing, sends to escrow); view = locked/spent books, totals, escrow balance, registered module invariant", assumptions=COMMON_ASSUME),
-    "C05": dict(mc=both(FEE_MC, FEE_GRANT), sim=FEE_SIM, sweep=FEE_SWEEP, random=both(rnd("ent", (300, 4), (2000, 20)), rnd("mix", (200, 2), (1500, 10))),
+    "C05": dict(ledger=True, mc=both(FEE_MC, FEE_GRANT), sim=FEE_SIM, sweep=FEE_SWEEP, random=both(rnd("ent", (300, 4), (2000, 20)), rnd("mix", (200, 2), (1500, 10))),
                 rule="as C04 plus vesting purchasers in the random histories; monitors: locked drops only by min(fee, locked) in a registry tx of the payer and equals the spent increase; completion never raises spendable", assumptions=COMMON_ASSUME),
-    "C02": dict(mc=both(FEE_MC), sim=both(FEE_SIM, ENT_SIM), sweep=both(FEE_SWEEP, AUTH_SWEEP), random=rnd("mix", (400, 3), (2500, 20)),
+    "C02": dict(ledger=True, mc=both(FEE_MC, ENT_MC), sim=both(FEE_SIM, ENT_SIM), sweep=both(FEE_SWEEP, AUTH_SWEEP), random=rnd("mix", (400, 3), (2500, 20)),
                 rule="supply and sum of ALL balances (iteration incl. unmodelled accounts) after every step of mixed histories; mint/burn events of every ABCI response equal the supply delta; supply changes only in BeginBlock by the completed orders' amounts", assumptions=COMMON_ASSUME),
     "C13": dict(mc=both(REG_MC, STR_MC, ENT_MC), sweep=AUTH_SWEEP, random=rnd("mix", (300, 2), (1500, 10)),
                 rule="TLC breadth-first sweep MC_Auth: every message type x every account as signer x every account as named address in three encodings (foreign key, proper signature, Exec wrapper) from a prepared state; each behaviour replayed on the real app; state digest before/after compared", assumptions=COMMON_ASSUME),
